@@ -162,6 +162,12 @@ pub fn run(cases: &[Vec<String>]) {
             u.extend(c[3..].iter().cloned());
             let seed: u64 = u.get(5).and_then(|s| s.parse().ok()).unwrap_or(1);
             run_async_case(seed, move || crate::ua::run_case(u))
+        } else if c[2] == "srv" {
+            // id c08 srv <kind> <reliable> <code> <t0> <events> <horizon> ...: one server transaction through the C06 harness (reliable
+            // and unreliable transports, with and without ACK): how often the final response goes out
+            let mut u = vec![c[0].clone(), "c06".into()];
+            u.extend(c[3..].iter().cloned());
+            run_async_case(1, move || crate::tsx_server::run_case(u))
         } else {
             run_async_case(seed, move || run_case(c))
         };
